@@ -14,11 +14,11 @@ RULE = ('seeded random programs: all 21 object types x attribute subsets x value
         'every object compared before / after each write against the write-time sites the translator finds in the source (K-write-sites).')
 ASSUMPTIONS = ['int()/float()/strptime meaning of strings and datetime arithmetic are CPython (trusted)',
                'ints of magnitude >= 2^53 assigned to float-coded attributes are outside the modelled domain']
-PARTIAL = ('proved: assignment frame rule (C05_assign_value/units), API frame rule (C05_api_frame), value read-back, record = set '
-           '(C05_record_is_the_set) and C05_write_changes_only_defaults (a write, successful or not, changes values / units only at the '
-           'write-time default sites regenerated from the source, and only where nothing or a falsy value had been given); what remains '
-           'checked per run rather than proved is the composition of these links into the single end-to-end statement '
-           '"decoded attribute = last accepted assignment", and the CPython meaning of raw values (int/float/str/datetime)')
+PARTIAL = ('proved end to end for explicitly formatted records (C05_file_content: every set record of a returned file decodes to the '
+           'set as it stands in the state the write leaves, which differs from the state it found only by write-time defaults where '
+           'nothing was given; hypothesis: no set shared between logical files = known finding D12 excluded) on top of the assignment / '
+           'API frame rules; what remains outside the theorems is the CPython meaning of raw values (int/float/str/datetime conversion, '
+           'trusted and cross-checked per run) and the shared-set configurations of D12')
 
 
 def run(ctx):
